@@ -297,6 +297,17 @@ func extractC11() *lean {
 	vconds, _ := c11Conds(c11Method(verF, "StatusList2021", "Verify"))
 	vc := c11Filter(vconds, "Type", "StatusPurpose", "revoked", "CredentialStatus")
 	l.def("statusVerifyConds", "List String", leanStrList(vc), vc)
+	// operator tree of statusList's refresh condition (prefix form; parentheses of the source are the tree itself)
+	refreshTree := "MISSING"
+	if fd := c11Method(verF, "StatusList2021", "statusList"); fd != nil {
+		ast.Inspect(fd, func(n ast.Node) bool {
+			if is, ok := n.(*ast.IfStmt); ok && strings.Contains(c11Call(is.Cond), "maxAgeExternal") {
+				refreshTree = c11Tree(is.Cond)
+			}
+			return true
+		})
+	}
+	l.def("statusListRefreshTree", "String", fmt.Sprintf("%q", refreshTree), refreshTree)
 	sconds, _ := c11Conds(c11Method(verF, "StatusList2021", "statusList"))
 	l.def("statusListConds", "List String", leanStrList(sconds), sconds)
 	uconds, ucalls := c11Conds(c11Method(verF, "StatusList2021", "update"))
@@ -414,6 +425,23 @@ func extractC11() *lean {
 	acl := c11Filter(acalls, "RegisterRevocation")
 	l.def("ambassadorRevocationCalls", "List String", leanStrList(acl), acl)
 	return l
+}
+
+// c11Tree renders the boolean operator tree of an expression in prefix form: (|| (&& a b) c)
+func c11Tree(e ast.Expr) string {
+	switch x := e.(type) {
+	case *ast.ParenExpr:
+		return c11Tree(x.X)
+	case *ast.BinaryExpr:
+		if x.Op == token.LOR || x.Op == token.LAND {
+			return "(" + x.Op.String() + " " + c11Tree(x.X) + " " + c11Tree(x.Y) + ")"
+		}
+	case *ast.UnaryExpr:
+		if x.Op == token.NOT {
+			return "(! " + c11Tree(x.X) + ")"
+		}
+	}
+	return "[" + c11Call(e) + "]"
 }
 
 // c11Call renders an expression including call arguments (exprString drops them)
